@@ -108,6 +108,8 @@ pub struct World {
     pub receivers: HashMap<String, mpsc::UnboundedSender<RCmd>>,
     pub requests: HashMap<String, Request>,
     pub cancels: HashMap<String, oneshot::Sender<()>>,
+    /// Credit probes per port handle (hook `verif`): sender pool, receiver (used, limit).
+    pub probes: std::collections::BTreeMap<String, (Box<dyn Fn() -> Option<u32>>, Box<dyn Fn() -> Option<(u32, u32)>>)>,
     pub pending: Pending,
     pub produced_tx: mpsc::UnboundedSender<Produced>,
     pub produced_rx: mpsc::UnboundedReceiver<Produced>,
@@ -404,6 +406,7 @@ impl World {
             receivers: HashMap::new(),
             requests: HashMap::new(),
             cancels: HashMap::new(),
+            probes: Default::default(),
             pending: Arc::new(Mutex::new(BTreeSet::new())),
             produced_tx,
             produced_rx,
@@ -425,6 +428,7 @@ impl World {
                 Produced::Port { name, side, tx, rx } => {
                     tr(format!("port {} {} local={} remote={}", name, side_name(side), tx.local_port(), tx.remote_port()));
                     let key = format!("{}@{}", name, side_name(side));
+                    self.probes.insert(key.clone(), (Box::new(tx.verif_credits_probe()), Box::new(rx.verif_credits_probe())));
                     let (stx, srx) = mpsc::unbounded_channel();
                     sender_actor(key.clone(), side, tx, srx, self.pending.clone(), self.produced_tx.clone());
                     self.senders.insert(key.clone(), stx);
@@ -444,6 +448,19 @@ impl World {
         self.cancels.insert(k.to_string(), ctx);
         self.pending.lock().unwrap().insert(k.to_string());
         crx
+    }
+
+    /// One `credits` line per live port handle: the real counters at this quiescent point.
+    pub fn log_credits(&self) {
+        for (key, (pool, mon)) in &self.probes {
+            let (name, side) = key.split_once('@').unwrap();
+            let pool = pool().map(|v| v.to_string()).unwrap_or("none".into());
+            let (used, limit) = match mon() {
+                Some((u, l)) => (u.to_string(), l.to_string()),
+                None => ("none".into(), "none".into()),
+            };
+            tr(format!("credits {name} {side} pool={pool} used={used} limit={limit}"));
+        }
     }
 
     pub fn pending_list(&self) -> String {
@@ -540,6 +557,7 @@ impl World {
             "start" => self.start().await,
             "settle" => {
                 self.settle().await;
+                self.log_credits();
                 tr(format!("settled pending={}", self.pending_list()));
             }
             "advance" => {
